@@ -12,6 +12,7 @@ witness for each input, so Unsatisfiable / generation errors are violations (hea
 """
 from __future__ import annotations
 
+import json
 import re
 
 from hypothesis import strategies as st
@@ -388,6 +389,14 @@ def check_operation(ctx: Ctx, inp) -> None:
                     ctx.disagree(f"required-missing:{p['in']}", f"required {p['in']} parameter {p['name']!r} is missing: {dict(cont)!r}", input=inp, case=summary)
                 continue
             value = cont[key]
+            if p.get("content") == "application/json" and isinstance(value, str) and dialect != "2.0":
+                # a `content: application/json` parameter is carried as its JSON text
+                try:
+                    value = json.loads(value)
+                    ctx.classes["content-parameter:json-text-decoded"] += 1
+                except ValueError:
+                    ctx.disagree("content-parameter:not-json", f"{p['in']} parameter {p['name']!r} is declared with content application/json but carries {value!r}", input=inp, case=summary)
+                    continue
             verdict = lenient_valid(p["schema"], value, dialect=dialect, root=root, loc=p["in"])
             if verdict is None:
                 ctx.inconclusive_case("comma-joined array with more than 10 commas: readings not enumerated")
